@@ -32,6 +32,7 @@ package parse
 //@   ghostset @call:iface:github.com/anz-bank/golden-retriever/reader.Reader.ReadHashBranch read
 //@   assert @lookup:map[parse.retrievedListIndex]*parse.fileInfo [map-read-under-lock] ghost("locked")
 //@   assert @mapupdate:map[parse.retrievedListIndex]*parse.fileInfo [map-write-under-lock] ghost("locked")
+//@   assert @mapupdate:map[parse.retrievedListIndex]*parse.fileInfo [claims-only-an-unclaimed-file] !in(mapkey, maptarget) && maptarget == retrieved.l
 //@   assert @call:iface:github.com/anz-bank/golden-retriever/reader.Reader.ReadHashBranch [claim-before-read] ghost("claimed") && !ghost("locked")
 //@   assert @call:iface:github.com/anz-bank/golden-retriever/reader.Reader.ReadHashBranch [reads-the-claimed-file] arg2 == source.filename
 //@   ensures [depth-cut] maxImportDepth > 0 && currentImportDepth >= maxImportDepth ==> result == nil && !ghost("read") && !ghost("claimed")
